@@ -330,14 +330,14 @@ fn j_u8_small(r: &mut Report, d: usize) { closure_wide!(r, u8, "u8", int_vals!(u
 fn j_i8_small(r: &mut Report, d: usize) { closure_wide!(r, i8, "i8", int_vals!(i8), d); }
 
 pub fn run(tier: Tier, rep: &mut Report) -> (String, String) {
-    let depth = tier.pick(8, 24, 3);
+    let depth = tier.pick(8, 24, 1);
     let mut jobs: Vec<(&str, Job)> = vec![
         ("u16", j_u16), ("i16", j_i16), ("u32", j_u32), ("i32", j_i32), ("u64", j_u64), ("i64", j_i64),
         ("u128", j_u128), ("i128", j_i128), ("usize", j_usize), ("isize", j_isize), ("char", j_char), ("trees", j_trees),
     ];
     if tier == Tier::Miri {
+        jobs.retain(|(n, _)| ["i128", "char", "usize"].contains(n));
         jobs.push(("u8", j_u8_small));
-        jobs.push(("i8", j_i8_small));
     } else {
         jobs.splice(0..0, [("u8", j_u8 as Job), ("i8", j_i8 as Job), ("u8 macros", j_m_u8 as Job), ("i8 macros", j_m_i8 as Job)]);
     }
